@@ -224,6 +224,80 @@ func SkipRows(fn *ssa.Function) []string {
 			out = append(out, "uses constant "+k) // presence only: the number of SSA operands depends on block structure
 		}
 	}
+	// what each edge of a branch leads to: the effects of the first block with any content on that edge
+	// (blocks without effects and with one successor are skipped: block fusing decides whether they exist)
+	// and how that block ends. A negated condition, or `&&` turned into `||`, swaps or merges the two sides.
+	{
+		isHdr := map[*ssa.BasicBlock]bool{}
+		for _, l := range loops {
+			isHdr[l.Header] = true
+		}
+		summary := func(start *ssa.BasicBlock) string {
+			b := start
+			for hops := 0; hops < 6; hops++ {
+				if isHdr[b] {
+					return "next"
+				}
+				var effs []string
+				for _, in := range b.Instrs {
+					if !isWork(in) {
+						continue
+					}
+					switch x := in.(type) {
+					case *ssa.Call:
+						if bi, isB := x.Call.Value.(*ssa.Builtin); isB {
+							effs = append(effs, bi.Name())
+						} else {
+							effs = append(effs, shortCallee(&x.Call))
+						}
+					case *ssa.Store:
+						_, f := core.FieldOf(x.Addr)
+						effs = append(effs, "."+f+"=")
+					default:
+						effs = append(effs, strings.TrimPrefix(fmt.Sprintf("%T", in), "*ssa."))
+					}
+				}
+				end := ""
+				switch t := b.Instrs[len(b.Instrs)-1].(type) {
+				case *ssa.Return:
+					end = "return"
+				case *ssa.If:
+					if isHdr[b] {
+						end = "loop"
+					} else {
+						p, n := CondText(t.Cond, true), CondText(t.Cond, false)
+						if n < p {
+							p = n
+						}
+						end = "if " + clip(p, 60)
+					}
+				case *ssa.Panic:
+					end = "panic"
+				}
+				if len(effs) > 0 || end != "" {
+					if len(effs) > 4 {
+						effs = append(effs[:4], "…")
+					}
+					return strings.TrimSpace(strings.Join(effs, ",") + " " + end)
+				}
+				if len(b.Succs) != 1 {
+					return "?"
+				}
+				if isHdr[b.Succs[0]] {
+					return "next"
+				}
+				b = b.Succs[0]
+			}
+			return "…"
+		}
+		for _, b := range fn.Blocks {
+			ifi, ok := b.Instrs[len(b.Instrs)-1].(*ssa.If)
+			if !ok || isHdr[b] {
+				continue
+			}
+			out = append(out, "branch: "+clip(argText(ifi.Cond), 120)+" ? ["+summary(b.Succs[0])+"] : ["+summary(b.Succs[1])+"]")
+		}
+	}
 	// every branch condition of the function, in a polarity-independent form (the smaller of the two
 	// renderings): conditions that only select a value (no effect on either edge) are visible here
 	for _, b := range fn.Blocks {
